@@ -490,6 +490,19 @@ class Exec(object):
             pos = tags[op.get("which", 0) % len(tags)] + op["off"] % 4
         if pos >= len(data):
             return
+        if op.get("tag") and region in ("MThd", "MTrk"):
+            # the whole 4-byte tag replaced by another plausible tag (e.g. the *other* chunk tag)
+            start = pos - (op["off"] % 4)
+            new_tag = op["tag"].encode("latin-1")[:4].ljust(4, b"\0")
+            if bytes(data[start : start + 4]) == new_tag:
+                return
+            old_tag = bytes(data[start : start + 4])
+            data[start : start + 4] = new_tag
+            self.flipped[path] = (region + " tag", start, int.from_bytes(old_tag, "big"), int.from_bytes(new_tag, "big"))
+            self.faults["stored_flip"] += 1
+            self.probes["flip_whole_tag"] += 1
+            self.trace.ev("flip_tag", path, region, start, new_tag)
+            return
         old = data[pos]
         new = op["byte"] & 0xFF
         if region == "format":
@@ -860,7 +873,10 @@ def generate(rng, prop, tier):
             else:
                 path = rng.choice(wrote)
                 if rng.random() < cfg["flip_p"]:
-                    ops.append({"op": "flip", "path": path, "region": rng.choice(["MThd", "format", "MTrk", "MTrk"]), "which": rng.randrange(4), "off": rng.randrange(4), "byte": rng.choice([0, 1, 2, 3, 0x4D, 0x54, 0xFF, rng.randrange(256)])})
+                    fl = {"op": "flip", "path": path, "region": rng.choice(["MThd", "format", "MTrk", "MTrk"]), "which": rng.randrange(4), "off": rng.randrange(4), "byte": rng.choice([0, 1, 2, 3, 0x4D, 0x54, 0xFF, rng.randrange(256)])}
+                    if rng.random() < 0.3:
+                        fl["tag"] = rng.choice(["MTrk", "MThd", "RIFF", "mthd", "mtrk", "dhTM", "krTM", "MTr", "MT  "])
+                    ops.append(fl)
                 o = {"op": "read", "path": path, "reader": rng.choice(["fresh", "fresh", "reuse"])}
                 plan = _gen_plan(rng, cfg, for_read=True)
                 if plan is not None:
@@ -1007,6 +1023,11 @@ def run_leg(prop, tier, seed, name):
                     for which in whichs:
                         for b in bytes_:
                             progs.append(two + [{"op": "write", "what": "comp", "ref": 0, "path": "a.mid", "bpm": 120, "repeat": 0, "mode": "func"}, {"op": "flip", "path": "a.mid", "region": region, "which": which, "off": off, "byte": b}, {"op": "read", "path": "a.mid", "reader": "fresh"}])
+        if name == "header_flips":
+            for region, whichs in (("MThd", [0]), ("MTrk", [0, 1])):
+                for which in whichs:
+                    for tag in ["MTrk", "MThd", "RIFF", "mthd", "mtrk", "dhTM", "krTM", "MTr", "MT  ", "\0\0\0\0"]:
+                        progs.append(two + [{"op": "write", "what": "comp", "ref": 0, "path": "a.mid", "bpm": 120, "repeat": 0, "mode": "func"}, {"op": "flip", "path": "a.mid", "region": region, "which": which, "off": 0, "byte": 0, "tag": tag}, {"op": "read", "path": "a.mid", "reader": "fresh"}])
         seen = set()
         for ops in progs:
             n += 1
@@ -1057,7 +1078,7 @@ def describe(prop):
         "rule": "Each run is a history over a small simulated disk: compositions built through the library API are written (write_Composition/write_Track or the public classes), paths are overwritten, stored bytes are damaged in the regions the statement names (MThd tag, format field, MTrk tags), and files are read back with a fresh or a reused reader, under transparent short reads/writes. What is read back is compared with a model of the last object written to that path. Non-trivial = at least one file operation. Distinct = distinct run shape (write shapes as in C16 x history pattern x reader kind x flip region x fault kind).",
         "state_measure": "not used for C17",
         "fault_kinds": ["short_write", "short_read", "stored_flip"],
-        "probes": ["track_begins_with_rest", "consecutive_rests", "reader_reused", "reader_reused_after_reject", "flip_MThd", "flip_format", "flip_MTrk", "key_read_back_C", "key_read_back_major_natural", "key_read_back_major_accidental", "key_read_back_minor", "builder_refused", "skipped_precondition"],
+        "probes": ["track_begins_with_rest", "consecutive_rests", "reader_reused", "reader_reused_after_reject", "flip_MThd", "flip_format", "flip_MTrk", "flip_whole_tag", "key_read_back_C", "key_read_back_major_natural", "key_read_back_major_accidental", "key_read_back_minor", "builder_refused", "skipped_precondition"],
         "clauses": ["C17.tracks", "C17.sequence", "C17.dynamics", "C17.tempo", "C17.name", "C17.program", "C17.meter", "C17.key", "C17.vlq_inverse", "C17.reject", "C17.stall"],
         "components_real": common_real + ["mingus.midi.midi_file_in (MidiFile parsers, MIDI_to_Composition)"],
         "components_stub": ["disk (dsim.simfs raw file + fault plans)", "print"],
